@@ -381,6 +381,9 @@ type CqlServerConnection struct {
 	ctx                context.Context
 	cancel             context.CancelFunc
 	payloadAccumulator *payloadAccumulator
+	// channelsLock is held (shared) by whoever sends on incoming or outgoing, and (exclusively) by Close while it closes
+	// them: a send never meets a channel that is being closed.
+	channelsLock sync.RWMutex
 }
 
 func newCqlServerConnection(
@@ -668,12 +671,14 @@ func (c *CqlServerConnection) reportConnectionFailure(err error, read bool) (abo
 func (c *CqlServerConnection) processIncomingFrame(incoming *frame.Frame) {
 	log.Debug().Msgf("%v: received incoming frame: %v", c, incoming)
 	verifPoint("server.process.beforeDeliver")
+	c.channelsLock.RLock()
 	select {
 	case c.incoming <- incoming:
 		log.Debug().Msgf("%v: incoming frame successfully delivered: %v", c, incoming)
 	default:
 		log.Error().Msgf("%v: incoming frames queue is full, discarding frame: %v", c, incoming)
 	}
+	c.channelsLock.RUnlock()
 	if len(c.handlers) > 0 {
 		c.invokeRequestHandlers(incoming)
 	}
@@ -730,6 +735,8 @@ func (c *CqlServerConnection) Send(f *frame.Frame) error {
 	}
 	log.Debug().Msgf("%v: enqueuing outgoing frame: %v", c, f)
 	verifPoint("server.send.beforeEnqueue")
+	c.channelsLock.RLock()
+	defer c.channelsLock.RUnlock()
 	select {
 	case c.outgoing <- newFrameResponse(f):
 		log.Debug().Msgf("%v: outgoing frame successfully enqueued: %v", c, f)
@@ -745,6 +752,8 @@ func (c *CqlServerConnection) SendRaw(rawResponse []byte) error {
 		return fmt.Errorf("%v: connection closed", c)
 	}
 	log.Debug().Msgf("%v: enqueuing outgoing raw response: %v", c, rawResponse)
+	c.channelsLock.RLock()
+	defer c.channelsLock.RUnlock()
 	select {
 	case c.outgoing <- newRawResponse(rawResponse):
 		log.Debug().Msgf("%v: outgoing frame successfully enqueued: %v", c, rawResponse)
@@ -792,6 +801,7 @@ func (c *CqlServerConnection) Close() (err error) {
 		log.Debug().Msgf("%v: closing", c)
 		c.cancel()
 		err = c.conn.Close()
+		c.channelsLock.Lock()
 		incoming := c.incoming
 		outgoing := c.outgoing
 		c.incoming = nil
@@ -799,6 +809,7 @@ func (c *CqlServerConnection) Close() (err error) {
 		verifPoint("server.close.beforeCloseChannels")
 		close(incoming)
 		close(outgoing)
+		c.channelsLock.Unlock()
 		verifPoint("server.close.afterCloseChannels")
 		c.waitGroup.Wait()
 		c.onClose(c)
